@@ -43,7 +43,11 @@ def single_defs(fn: ast.AST) -> Dict[str, ast.AST]:
     targets, augmented or unpacking assignments): reading such a name is reading that value"""
     stores: Dict[str, int] = {}
     vals: Dict[str, ast.AST] = {}
+    # the target of a comprehension is local to the comprehension: it is not a binding of the function's variable
+    comp_targets = {id(y) for c in ast.walk(fn) if isinstance(c, ast.comprehension) for y in ast.walk(c.target)}
     for x in walk_no_nested(fn):
+        if id(x) in comp_targets:
+            continue
         if isinstance(x, ast.Name) and isinstance(x.ctx, (ast.Store, ast.Del)):
             stores[x.id] = stores.get(x.id, 0) + 1
         elif isinstance(x, ast.Assign) and len(x.targets) == 1 and isinstance(x.targets[0], ast.Name):
